@@ -190,7 +190,12 @@ where
     }
 
     pub(crate) fn contains(&self, key: &Key) -> bool {
-        self.0.contains_key(key)
+        // Expired entries are only purged on insertion: an id whose time-to-live has passed
+        // must not be reported as seen in the meantime.
+        self.0
+            .map
+            .get(key)
+            .is_some_and(|entry| entry.expires > Instant::now())
     }
 }
 
